@@ -8,6 +8,10 @@
 (* compared with the source recording, channel map, templates, loader).     *)
 (* The jobs write disjoint rows iff AtMostOnce holds, and then every        *)
 (* interleaving yields the same file; they are installed in chunk order.    *)
+(* A trace of kind "array" is one direct call of extract_wfs_array (the     *)
+(* gather the chunk jobs use): any trough_offset / spike_length_samples /   *)
+(* neighbourhood radius / add_nan_trace, its own recording length; the      *)
+(* record carries the samples and what the harness observed on the result.  *)
 (***************************************************************************)
 EXTENDS Integers, Sequences, FiniteSets, TLC, Json, IOUtils
 
@@ -82,6 +86,20 @@ TFinalize ==
           <<R.obs.chan_ok, "Files:channels">>, <<R.obs.templ_ok, "Files:templates">>,
           <<R.obs.loader_ok, "Loader">> >>)
 
+\* a direct extract_wfs_array call: R.a = [ns, trough, len, samples]; every window asked for lies inside the array
+\* (the documented precondition, generated that way), so every returned waveform must be the window of its own row
+TArray ==
+    /\ pc = "new" /\ R.kind = "array" /\ R.exc = ""
+    /\ pc' = "done"
+    /\ UNCHANGED <<train, maxwf, chunk, table, done, writes, tid, pos>>
+    /\ impl' = Pick(impl, <<
+          <<\A i \in DOMAIN R.a.samples : 0 <= R.a.samples[i] - R.a.trough
+                                           /\ R.a.samples[i] + (R.a.len - R.a.trough) < R.a.ns, "Array:precondition">> >>)
+    /\ prop' = Pick(prop, <<
+          <<R.obs.rows_ok /\ Len(R.content) = Len(R.a.samples), "Files:rows">>,
+          <<\A i \in DOMAIN R.content : R.content[i] = 1, "TracesEqualSource">>,
+          <<R.obs.chan_ok, "Files:channels">> >>)
+
 \* the call raised
 TRaise ==
     /\ pc = "new" /\ R.exc # ""
@@ -93,7 +111,7 @@ Report ==
     /\ (prop # "" \/ impl # "") => PrintT(<<"VERDICT", tid, prop, impl, pos>>)
     /\ UNCHANGED <<train, maxwf, chunk, table, done, writes, tid, pos, prop, impl>>
 
-Next == (IF R.exc # "" THEN TRaise ELSE TMakeTable \/ TJob \/ TFinalize) \/ Report
+Next == (IF R.exc # "" THEN TRaise ELSE IF R.kind = "array" THEN TArray ELSE TMakeTable \/ TJob \/ TFinalize) \/ Report
 Spec == Init /\ [][Next]_vars
 Consumed == TRUE
 =============================================================================
